@@ -388,7 +388,16 @@ func drawPre(r *Rng, cfg SpecConfig, m *ModuleSpec) {
 				return
 			}
 		}
-		m.Pre = append(m.Pre, PreFile{Path: path, Content: content})
+		pf := PreFile{Path: path, Content: content}
+		// most of what lies around in a real tree was not written a second ago, and some of it is read-only
+		switch {
+		case r.P(0.35):
+			pf.Age = "old"
+		case r.P(0.08):
+			pf.Age = "future"
+		}
+		pf.ReadOnly = r.P(0.15)
+		m.Pre = append(m.Pre, pf)
 	}
 	for pi, p := range m.Pkgs {
 		dir := p.Dir
@@ -419,6 +428,11 @@ func drawPre(r *Rng, cfg SpecConfig, m *ModuleSpec) {
 		}
 		if r.P(0.2) {
 			add(j(".hidden"), "dot file\n")
+		}
+		if r.P(0.35) {
+			// what developers, editors and merge tools leave next to sources: parked or backed-up Go files
+			n := Pick(r, []string{"handler.go.tmp", "old_impl.go.tmp", "doc.go.orig", "doc.go~", "types.go.bak", "notes.tmp", "conflict.go.rej"})
+			add(j(n), "package "+p.Name+"\n\n// parked by hand, not by gengo\nfunc Parked"+fmt.Sprint(pi)+"() {}\n")
 		}
 		if r.P(0.25) {
 			// a directory (not a package) whose name has the output prefix
